@@ -382,6 +382,51 @@ fn notations() -> Vec<String> {
     v
 }
 
+/// Digit separators (`_`, U+2009) at every place the lexer accepts one: after any digit, right after
+/// the point, around the exponent marker and its sign, after a radix prefix - one separator per
+/// literal, plus every gap at once. The reference reads the literal with the separators removed.
+fn separators(bases: &[&str]) -> Vec<String> {
+    let mut v = vec![];
+    for b in bases {
+        let cs: Vec<char> = b.chars().collect();
+        let prefixed = b.starts_with("0x") || b.starts_with("0o") || b.starts_with("0b");
+        let ok = |p: usize| -> bool {
+            if p < if prefixed { 2 } else { 1 } {
+                return false;
+            }
+            let prev = cs[p - 1];
+            let next = cs.get(p).copied();
+            if !prefixed && (prev == 'e' || prev == 'E') && matches!(next, Some('+') | Some('-')) {
+                return false;
+            }
+            true
+        };
+        for sep in ['_', '\u{2009}'] {
+            let mut all = String::new();
+            for p in 0..=cs.len() {
+                if p > 0 && ok(p) {
+                    all.push(sep);
+                    let mut one: String = cs[..p].iter().collect();
+                    one.push(sep);
+                    one.extend(cs[p..].iter());
+                    v.push(one);
+                }
+                if p < cs.len() {
+                    all.push(cs[p]);
+                }
+            }
+            v.push(all);
+        }
+        v.push(b.to_string());
+    }
+    v
+}
+
+const SEP_BASES: [&str; 17] = [
+    "1.25", "2.50e1", "0.001", "1.0001", "2.50e3", "0.000001", "1234.5678", "3.141592", "12e12", "1.5e-3", "1.25E+2", ".125",
+    "0x1f2e", "0o1750", "0b100101", "100.001e-2", "7.0",
+];
+
 /// Every integer exponent / shift count in -130..=130 (machine-word boundaries 31/32/63/64/127/128
 /// included) so that a fast path for "small" counts cannot hide an off-by-one.
 fn int_sweep() -> Vec<String> {
@@ -434,6 +479,8 @@ impl C01 {
             add(1, &OPS14, notations()[..40].to_vec(), false);
             add(2, &OPS13, leaves_core(), true);
         }
+        add(0, &OPS14, separators(&SEP_BASES), true);
+        add(1, &OPS14, separators(&SEP_BASES[..3]), false);
         // exponent / shift-count sweep: `a op k` for every integer k in -130..=130
         let total0: u64 = fams.iter().map(|f| f.size).sum();
         let sweep = Sweep { bases: sweep_bases(), ks: int_sweep(), ops: vec![Op::Shl, Op::Shr, Op::Pow, Op::StarStar, Op::Mod, Op::And, Op::Or, Op::Xor] };
@@ -534,7 +581,7 @@ impl Space for C01 {
         Meta {
             id: "C01",
             level: "exploration",
-            rule: "every expression tree with <=2 (quick) / <=3 (thorough) binary operator nodes over 14 operators (+ - * / | juxtaposition ^ ** mod << >> and or xor), optional unary sign, plus the sweep `a op k` for 8 operators x 6 bases x every integer k in -130..130 (word-size boundaries 31/32/63/64/127/128), and a boundary-value literal alphabet (all notations: decimal/fraction/exponent/digit separators/hex/octal/binary; 2^64+-1, 2^128+1, 1e30, 2^4096+1, 1e-40); each rendered fully parenthesised AND minimally parenthesised per the manual's precedence table, evaluated by rink and by an independent BigRational evaluator. Non-trivial = the reference defines a value or an undefined-case (not skipped as fractional-exponent/expensive); distinct = by rendered text".into(),
+            rule: "every expression tree with <=2 (quick) / <=3 (thorough) binary operator nodes over 14 operators (+ - * / | juxtaposition ^ ** mod << >> and or xor), optional unary sign, plus the sweep `a op k` for 8 operators x 6 bases x every integer k in -130..130 (word-size boundaries 31/32/63/64/127/128), and a boundary-value literal alphabet (all notations: decimal/fraction/exponent/hex/octal/binary; a `_` or U+2009 digit separator at every accepted position of 17 literals - integer part, fraction, after the point, around the exponent marker, after a radix prefix - singly and all at once; 2^64+-1, 2^128+1, 1e30, 2^4096+1, 1e-40); each rendered fully parenthesised AND minimally parenthesised per the manual's precedence table, evaluated by rink and by an independent BigRational evaluator. Non-trivial = the reference defines a value or an undefined-case (not skipped as fractional-exponent/expensive); distinct = by rendered text".into(),
             assumptions: vec![
                 "num-bigint/num-rational arithmetic is correct (shared trusted base)".into(),
                 "explicit `*` associates with `/` at one level, left to right (as the repository's own parser tests pin)".into(),
